@@ -21,7 +21,7 @@ TRUSTED = ["Lean 4.33 kernel; axioms ⊆ {propext, Classical.choice, Quot.sound}
            "x86-TSO: barrier_count is updated by a locked sub_return, the completion futex by a locked dec; the marker's plain futex:=0 store is delayed up to its FUTEX_WAKE (same argument as C03); futex contract as in C02/C03",
            "caller obligations: rcu_barrier() is not called from a read-side section (refused) nor from a call_rcu helper thread (model: user threads only); callbacks terminate",
            "'rcu_barrier() always returns' is proved as no-lost-wake-up + non-stuck wakers; 'eventually' needs a fair scheduler, terminating callbacks and C03's liveness; checked on the implementation by the runtime's deadlock / step-budget detectors",
-           "tie: Driver/CallRcu.lean event-level replay of rcu_barrier / _rcu_barrier_complete / call_rcu_completion_wait / _wake_up under the shim on the explored schedules only (L1 ⊑ L2 not a theorem); qsbr online/offline caller not run (memb and mb flavors only)"]
+           "tie: Driver/CallRcu.lean event-level replay of rcu_barrier / _rcu_barrier_complete / call_rcu_completion_wait / _wake_up under the shim on the explored schedules only (L1 ⊑ L2 not a theorem); all flavors run (memb ±membarrier, mb, qsbr with online and offline rcu_barrier callers, bp ±membarrier)"]
 OWN = {"barrier", "uaf", "DEADLOCK", "BUDGET", "SELFLOCK", "BADUNLOCK"}
 SWEEPS = [(3, 2, (5, 14, 30, 60, 110))]
 
